@@ -1,2 +1,3 @@
 //! Shared helpers of the correspondence harness.
 pub mod util;
+pub mod sys;
